@@ -14,7 +14,7 @@
 (*   text form = positional notation for every radix 2..64.                *)
 (***************************************************************************)
 EXTENDS Codec, FiniteSets, TLC
-CONSTANTS PW, CA, CB, MaxLen, FirstBytes, VMax, TextLen, SqrtPrimes
+CONSTANTS PW, CA, CB, EA, ED, MaxLen, FirstBytes, VMax, TextLen, SqrtPrimes
 VARIABLES s, v
 
 P  == BFromNat(PW)
@@ -95,6 +95,28 @@ EpInv == v = 0 =>
         /\ (Len(s) = 3 /\ s[1] = 4 /\ s[2] < PW /\ s[3] < PW /\ ~NOn(s[2], s[3])) => ~d.ok  \* off curve
         /\ (Len(s) = 2 /\ s[1] \in {2, 3} /\ s[2] < PW /\ ~\E y \in 0..(PW - 1) : NOn(s[2], y)) => ~d.ok
         /\ (Len(s) = 3 /\ s[1] = 4 /\ s[2] < PW /\ s[3] < PW /\ NOn(s[2], s[3])) => d.ok
+
+(* ---- every byte string through the Edwards point decoder (curve EA x^2 + y^2 = 1 + ED x^2 y^2) *)
+EC == [p |-> P, a |-> BFromNat(EA), d |-> BFromNat(ED)]
+NEdOn(x, y) == (EA * x * x + y * y) % PW = (1 + ((ED * x * x) % PW) * y * y) % PW
+NEdGroup == {EdPt(BFromNat(q[1]), BFromNat(q[2])) :
+                q \in {xy \in (0..(PW - 1)) \X (0..(PW - 1)) : NEdOn(xy[1], xy[2])}}
+EdImageP == {EdEnc(Q, pk, EC, FB, SgParity) : Q \in NEdGroup, pk \in BOOLEAN}
+EdImageH == {EdEnc(Q, pk, EC, FB, SgHalf) : Q \in NEdGroup, pk \in BOOLEAN}
+EdImg(sg) == IF sg.kind = "half" THEN EdImageH ELSE EdImageP
+EdInv == v = 0 =>
+    \A sg \in Sgs :
+        LET d == EdDec(s, EC, FB, sg) IN
+        /\ d.ok <=> s \in EdImg(sg)
+        /\ d.ok => /\ d.v \in NEdGroup /\ (d.v.inf \/ EdOnCurve(d.v, EC))
+                   /\ LET pk == IF d.v.inf THEN FALSE ELSE PackOf(s) IN
+                      EdEnc(d.v, pk, EC, FB, sg) = s /\ Len(s) = EdEncSize(d.v, pk, FB)
+        /\ (s = <<>>) =>
+              /\ EdNeutral \in NEdGroup
+              /\ \A Q \in NEdGroup : \A pk \in BOOLEAN :
+                    /\ EdDec(EdEnc(Q, pk, EC, FB, sg), EC, FB, sg) = Ok(Q)
+                    /\ Len(EdEnc(Q, pk, EC, FB, sg)) = EdEncSize(Q, pk, FB)
+              /\ Cardinality(EdImg(sg)) = 2 * Cardinality(NEdGroup) - 1
 
 (* ---- every short byte string through the text reader, every radix *)
 TextInv == (v = 0 /\ Len(s) <= TextLen) =>
